@@ -236,6 +236,10 @@ func scanExport(ap *intermediate.AggregationProcess) output {
 }
 
 func linHistory(c *hx.Ctx, k int, r *rand.Rand) {
+	procs := []int{1, 2, 4, 16}[r.IntN(4)]
+	runtime.GOMAXPROCS(procs)
+	defer runtime.GOMAXPROCS(16)
+	c.Add(fmt.Sprintf("lin_histories_gomaxprocs_%d", procs), 1)
 	for i := range corrFlow {
 		corrFlow[i] = r.IntN(2) == 0
 	}
